@@ -503,11 +503,9 @@ pub trait TS {
     where
         Self: 'static,
     {
-        let path = <Self as crate::TS>::default_output_path()
-            .ok_or_else(std::any::type_name::<Self>)
-            .map_err(ExportError::CannotBeExported)?;
-
-        export::export_to::<Self, _>(path)
+        // go through the same path normalisation as `export_all`, so that both entry points
+        // agree on which file a type has already been exported to
+        export::export_into::<Self>(&*export::default_out_dir())
     }
 
     /// Manually export this type to the filesystem, together with all of its dependencies.  
